@@ -188,7 +188,9 @@ def compile : Ast → Needed → Except CErr (Compiled × Needed)
       let (r, needed) ← compile c needed
       let needed := if needed.all (fun e => (r.defs.get e.1).isNone) then
           (match r.query.select with | u :: _ => needed.incr u | [] => needed) else needed
-      let names := subqueryNames (needed.map (·.1)) r.defs
+      -- the grouping state survives the subquery: its columns are selected as well (repair of D66)
+      let subqCols := needed.map (·.1) ++ (r.query.partitionBy.map (·.1)).filter (fun u => !needed.any (·.1 == u))
+      let names := subqueryNames subqCols r.defs
       let innerQ := { r.query with select := names.map (·.1) }
       let innerDefs := names.foldl (fun d e => match d.get e.1 with
         | some (_, ex) => d.set e.1 (e.2, ex)
